@@ -100,16 +100,27 @@ def r4(ctx, chk):
     fn = ctx.ix.func(P.PARSER + "._correct_for_time_frame")
     atom_fn = P.make_atom_fn(fn, P._aliases(fn))
     consts = []
+
+    def step_of(v):
+        """the whole-day constant a statement stores: `steps = 7`, or the shift itself written out (`delta = timedelta(days=-7)`)"""
+        if isinstance(v, ast.Constant) and isinstance(v.value, int) and not isinstance(v.value, bool):
+            return v.value
+        if isinstance(v, ast.Call) and ast.unparse(v.func).split(".")[-1] == "timedelta" and not v.args and len(v.keywords) == 1 and v.keywords[0].arg == "days":
+            d = v.keywords[0].value
+            if isinstance(d, ast.UnaryOp) and isinstance(d.op, ast.USub):
+                d = d.operand
+            if isinstance(d, ast.Constant) and isinstance(d.value, int):
+                return d.value
+        return None
     for n in iter_own_nodes(fn.node):
-        if isinstance(n, ast.Assign) and isinstance(n.targets[0], ast.Name) and isinstance(n.value, ast.Constant) \
-                and isinstance(n.value.value, int) and n.value.value in (0, 7):
+        if isinstance(n, ast.Assign) and isinstance(n.targets[0], ast.Name) and step_of(n.value) in (0, 7):
             # only the assignments nested under the same-weekday test
             g = P.full_guard(fn, n, atom_fn)
             if any("==" in fr for fr in G.atoms_of(g, ("free",))):
                 consts.append((n, g))
     chk.floor(rule, len(consts), 2, "same-weekday step assignments")
     for n, g in consts:
-        if n.value.value == 7:
+        if step_of(n.value) == 7:
             w = G.satisfiable(G.conj(g, G.neg(("atom", "past")), G.neg(("atom", "future"))), P.ATOMS, P.constraint)
             chk.ob(rule, "L%d same weekday: a full week (7) only under past/future" % n.lineno, w is None,
                    "a week is added/subtracted under current_period", key={"function": fn.key, "construct": "same-weekday 7"},
